@@ -13,4 +13,10 @@ META = {
         bounds_thorough="2-byte strings exhaustive; option tuples depth 3; merge 3 keys",
         assumptions=COMMON_ASSUME,
     ),
+    "C17": dict(
+        rule="decoder: explicit-state BFS on the real services/decoder object per buffer (state = (cursor, sticky-error flag); successors built by replaying the shortest path on a fresh decoder over a cap-limited buffer) over all buffers of length 0..2 (all byte values) and 3..6 over {00,01,7f,80,ff}, alphabet {Byte,Int16,Int32,Uint32,PeekByte,PeekInt16,Data,Copy(n),Seek(n)} n in -3..8, depth 4, every transition compared with a reference decoder; plus all unmerged operation sequences of length 3 on buffers <=3 bytes. IPP: requests built by an independent RFC 8010 encoder (5 operations x versions x request ids x documents; one attribute of every supported value tag at every position; ordered attribute pairs) POSTed to the real ipp service through server.Run in a bubble; reply parsed by an independent parser. Distinct = distinct per-buffer (states,transitions) outcomes and distinct IPP (request class, reply shape) outcomes.",
+        bounds_quick="decoder depth 4 (BFS), unmerged depth 3; IPP: 1 extra attr x 5 positions, pruned pairs",
+        bounds_thorough="decoder depth 4 (BFS), unmerged depth 4 on buffers <=2; IPP: all ordered pairs, 64 KiB document",
+        assumptions=COMMON_ASSUME + ["decoder state canonicalisation: methods read only (data, offset) and write only (offset, lasterror) - cross-checked by the unmerged sequence enumeration"],
+    ),
 }
